@@ -1,6 +1,7 @@
 /* stream c06: encode a parametrised test signal, decode it through the packet API, and measure what C06 talks about:
      case <id>
-     sig <ch> <rate> <mode> <q|nominal bps> <n> <class> <seed>     mode 0: VBR quality, 1: managed nominal bitrate
+     sig <ch> <rate> <mode> <q|nominal bps> <n> <class> <seed> [<vis>]    mode 0: VBR quality, 1: managed nominal bitrate; vis 0: every packet carries its
+                                                                    granule position, 1: only the last one (a stream of one Ogg page), k>=2: every k-th
    classes: 0 multitone (distinct partials per channel), 1 linear sweep, 2 low-passed noise (independent per channel), 3 click train (distinct offsets),
             4 like 0 but channel 0 silent, 5 tone bursts separated by exact zeros on channel 0 and steady tones elsewhere, 6 noise bursts (for the lag test),
             7 sharp-onset bursts between exact zeros on channel 0 only, steady tones on every other channel (transient detection must not depend on which channel has the onset),
@@ -45,7 +46,7 @@ static int c06_main(int argc,char **argv){
     if(n==0){ free(line); continue; }
     if(!strcmp(tok[0],"case")){ printf("== case %s\n",n>1?tok[1]:"?"); fflush(stdout); case_watchdog(); }
     else if(!strcmp(tok[0],"sig")&&n>=8){
-      int ch=atoi(tok[1]); long rate=atol(tok[2]); int mode=atoi(tok[3]); double qv=atof(tok[4]); long N=atol(tok[5]); int cls=atoi(tok[6]); long seed=atol(tok[7]);
+      int ch=atoi(tok[1]); long rate=atol(tok[2]); int mode=atoi(tok[3]); double qv=atof(tok[4]); long N=atol(tok[5]); int cls=atoi(tok[6]); long seed=atol(tok[7]); int vis=(n>=9)?atoi(tok[8]):0;
       vorbis_info vi,dvi; vorbis_comment vc,dvc; vorbis_dsp_state vd,dvd; vorbis_block vb,dvb; ogg_packet op,h[3]; int rc,c,k,eos=0,finite=1; long done=0,outn=0;
       float **in=calloc(ch>0?ch:1,sizeof(*in)),**out=calloc(ch>0?ch:1,sizeof(*out));
       vorbis_info_init(&vi);
@@ -67,6 +68,8 @@ static int c06_main(int argc,char **argv){
           while(vorbis_bitrate_flushpacket(&vd,&op)){
             float **pcm; int s;
             if(op.e_o_s)eos=1;
+            if(vis==1&&!op.e_o_s)op.granulepos=-1;   /* what a demuxer hands over when the whole stream sits on one Ogg page: only the page's last packet has a position */
+            if(vis>=2&&!op.e_o_s&&(op.packetno%vis))op.granulepos=-1;   /* pages of <vis> packets */
             if(vorbis_synthesis(&dvb,&op)==0)vorbis_synthesis_blockin(&dvd,&dvb);
             while((s=vorbis_synthesis_pcmout(&dvd,&pcm))>0){ int j; for(c=0;c<ch;c++)for(j=0;j<s&&outn+j<N+8192;j++)out[c][outn+j]=pcm[c][j]; outn+=s; vorbis_synthesis_read(&dvd,s); }
           }
@@ -97,6 +100,13 @@ static int c06_main(int argc,char **argv){
         for(c=0;c<ch;c++){ double worst=0; long w0; for(w0=2048;w0+256+2048<=m;w0+=128){ double e=0; for(i=w0;i<w0+256;i++){ double d=(double)in[c][i]-out[c][i]; e+=d*d; } if(e>worst)worst=e; }
           if(ein[c]>0&&m>8192) printf("%s%d",c?",":"",(int)floor(100.0*log10((ein[c]/(double)N*256.0+1e-30)/(worst+1e-30))));
           else printf("%sS",c?",":""); }
+        /* the two ends of the signal (first and last 1024 samples), which the figures above leave out: SNR in tenths of dB against the input at
+           the same positions — the end of the stream is where the decoder trims the last block against the granule position */
+        printf(" ends=");
+        for(c=0;c<ch;c++){ long T=(m>=4096)?1024:256,j; double eh=0,et=0,sh=0,st=0;
+          if(m<4*T||outn!=N||!(ein[c]>0)){ printf("%sS",c?",":""); continue; }
+          for(j=0;j<T;j++){ double d=(double)in[c][j]-out[c][j]; eh+=d*d; sh+=(double)in[c][j]*in[c][j]; d=(double)in[c][N-T+j]-out[c][N-T+j]; et+=d*d; st+=(double)in[c][N-T+j]*in[c][N-T+j]; }
+          printf("%s%d/%d",c?",":"",sh>0?(int)floor(100.0*log10((sh+1e-30)/(eh+1e-30))):9999,st>0?(int)floor(100.0*log10((st+1e-30)/(et+1e-30))):9999); }
         putchar('\n'); free(ein);
       }
       vorbis_block_clear(&dvb); vorbis_dsp_clear(&dvd); vorbis_comment_clear(&dvc); vorbis_info_clear(&dvi);
